@@ -15,7 +15,7 @@ EXTRA = ['f :- p(A), p(B), q(A,X), q(B,Y), A != B, X < Y.', '1 { a(X,Y) : b(Y) }
 
 
 def corr(rng, quick):
-    return corr_symmetry.run(rng, 60 if quick else 2500, corpus_limit=60 if quick else None)
+    return corr_symmetry.run(rng, 140 if quick else 2500, corpus_limit=60 if quick else None)
 
 
 def semcond(rng, quick):
